@@ -33,6 +33,9 @@ CHECKS["C13"] = dict(engine="RMC", category="model_checking", technique="statele
   text="All pairs and chosen triples of exported operations run against a finished, a running and a waiting job, a pending start timer and the persist loop; on every explored interleaving the race detector must stay silent about production code and structural invariants of the job indexes must hold at every lock release.", design="3/C13",
   note=RMC_NOTE+" The race detector only judges accesses that the scenarios perform. Hand-offs of the controlled scheduler are spins in //go:norace code; harness and shim packages are compiled without race instrumentation; reports during teardown of an execution are discarded.")
 
+CHECKS["C11"] = dict(engine="RMC", category="model_checking", technique=X1T+"; virtual clock; recording data store",
+  text="Shutdown (graceful, and forced with the context cancelled at every point) is explored from nine prefix states, alone and racing with schedule / cancel / save, up to the deviation bound; at return and at the end a monitor checks terminal jobs, no executing task, store == reported state, the admission gate, and the graceful/forced semantics; a separate scenario checks that the 3s persist loop stores every accepted change without an explicit save.", design="3/C11", note=RMC_NOTE)
+
 PLANNED = {}
 props = [json.loads(l) for l in open('/verif/properties.jsonl')]
 hooks = subprocess.run(['git','-C','/repo','log','--format=%h %s','--grep=^verif hook'],capture_output=True,text=True).stdout.strip().splitlines()
